@@ -637,7 +637,9 @@ static OPN2_MIDIPlayer *make_instance(Case &c, Rng &r, bool light, std::string &
     OPN2_MIDIPlayer *d = NULL;
     TAPI("opn2_init", d = opn2_init(rate));
     if(!d) { c.violation("oracle:init-failed", "opn2_init returned NULL"); return NULL; }
-    int chips = r.chance(0.5) ? 1 : 2, emu = r.chance(0.5) ? OPNMIDI_EMU_MAME : OPNMIDI_EMU_GENS, rc = 0;
+    // every bundled core interprets the operator bytes itself: the two cheap ones in half of the cases, the others in the rest
+    static const int other_cores[] = {4, 5, 3, 6, 4, 5, 3, 6, 1, 8};
+    int chips = r.chance(0.5) ? 1 : 2, emu = r.chance(0.5) ? (r.chance(0.5) ? OPNMIDI_EMU_MAME : OPNMIDI_EMU_GENS) : (int)r.pick(other_cores), rc = 0;
     TAPI("opn2_setNumChips", rc = opn2_setNumChips(d, chips));
     TAPI("opn2_switchEmulator", rc = opn2_switchEmulator(d, emu));
     cfg = vfmt("rate=%ld chips=%d emu=%d", rate, chips, emu);
